@@ -1,6 +1,10 @@
 (* C12 -- Degenerate hyper-parameters reduce every algorithm to FedAvg.
    Property theorems only; every proof is `exact <lemma>` (Proofs/C12_Proofs.v).
-   The round skeletons are in Model/C12_Model.v; FedAvg is Model/C01_Model.v. *)
+   Round skeletons: Model/C12_Model.v (fedprox / fedavg_on_prox / apfl_global are the
+   accumulation loop of fed_avg.apply with their own client programs; hypcluster, mimelite,
+   mime have their own round functions, over the tree_util functions translated on this
+   run).  FedAvg is `fedavg` = Model/C01_Model.fedavg_apply with the gradient-descent
+   client program.  `=v=` is coordinatewise == on Q. *)
 From Coq Require Import ZArith QArith List Permutation Bool.
 From FV Require Import Common.NanQ Common.QVec Common.WMean Model.C01_Model Proofs.C01_Proofs Model.C12_Model Proofs.C12_Proofs.
 Import ListNotations.
@@ -8,23 +12,26 @@ Local Open Scope Q_scope.
 
 Section C12.
 Context {K U B S OS : Type}.
-Variable grad : list Q -> B -> U -> list Q.
-Variable split : K -> K * U.
-Variable split3 : K -> K * U * U.
-Variable split_pair : K -> K * K.
-Variable copt_init : list Q -> S.
+Variable grad : list Q -> B -> U -> list Q.              (* grad_fn(params, batch, rng) *)
+Variable split : K -> K * U.                             (* jax.random.split(rng) *)
+Variable split3 : K -> K * U * U.                        (* jax.random.split(rng, 3) *)
+Variable split_pair : K -> K * K.                        (* HypCluster's per-client split *)
+Variable copt_init : list Q -> S.                        (* client / base optimizer *)
 Variable copt_apply : list Q -> S -> list Q -> S * list Q.
-Variable sopt : list Q -> OS -> list Q -> OS * list Q.
+Variable sopt : list Q -> OS -> list Q -> OS * list Q.   (* server optimizer *)
 Notation client := (@client K B).
+Notation mclient := (@mclient K B).
 
-(* FedProx (any mu) = FedAvg on the loss augmented with the proximal penalty toward the
-   round's server parameters: the whole round result is identical, hence every run *)
+(* ---- exact (Leibniz) reductions: no assumption on the ingredients ---- *)
+
+(* FedProx, any mu  =  FedAvg on the loss augmented with the proximal penalty toward the
+   round's server parameters (whole round result, hence every run) *)
 Theorem C12_fedprox_is_fedavg_on_prox_loss : forall mu st (clients : list client),
   fedprox grad split copt_init copt_apply sopt mu st clients =
   fedavg_on_prox grad split copt_init copt_apply sopt mu st clients.
 Proof. exact (fedprox_is_fedavg_on_prox grad split copt_init copt_apply sopt). Qed.
 
-(* APFL's global model = FedAvg when the gradient ignores its key, round by round and along runs *)
+(* APFL's global model = FedAvg when the gradient ignores its key *)
 Theorem C12_apfl_global_eq_fedavg : forall st (clients : list client),
   (forall p b u u', grad p b u = grad p b u') ->
   apfl_global grad split3 copt_init copt_apply sopt st clients = fedavg grad split copt_init copt_apply sopt st clients.
@@ -34,8 +41,155 @@ Theorem C12_apfl_global_eq_fedavg_multi_round : forall st (cohorts : list (list 
   (forall p b u u', grad p b u = grad p b u') ->
   apfl_global_runs grad split3 copt_init copt_apply sopt st cohorts = fedavg_runs grad split copt_init copt_apply sopt st cohorts.
 Proof. exact (apfl_global_runs_eq_fedavg grad split split3 copt_init copt_apply sopt). Qed.
+
+(* HypCluster with one cluster keeps (params, opt_state) in a round that saw no example
+   (FedAvg applies the server optimizer to the zero mean there: C01_empty_round_mean_zero) *)
+Theorem C12_hypcluster_empty_round_keeps_state : forall p os (clients : list client),
+  NoDup (map c_id clients) -> (total_examples clients <= 0)%Z ->
+  hypcluster grad split split_pair copt_init copt_apply sopt (fun _ => O) [(p, os)] clients = Some [(p, os)].
+Proof. exact (hypcluster_empty_round_keeps_state grad split split_pair copt_init copt_apply sopt). Qed.
+
+(* ---- reductions up to == on Q: the ingredients respect == and keep lengths ---- *)
+Variable S_eq : S -> S -> Prop.
+Variable os_eq : OS -> OS -> Prop.
+Hypothesis copt_init_proper : forall p p', p =v= p' -> S_eq (copt_init p) (copt_init p').
+Hypothesis copt_apply_proper : forall g g' s s' p p', g =v= g' -> S_eq s s' -> p =v= p' ->
+  S_eq (fst (copt_apply g s p)) (fst (copt_apply g' s' p')) /\ snd (copt_apply g s p) =v= snd (copt_apply g' s' p').
+Hypothesis copt_apply_length : forall g s p, length g = length p -> length (snd (copt_apply g s p)) = length p.
+Hypothesis grad_proper : forall p p' b u, p =v= p' -> grad p b u =v= grad p' b u.
+Hypothesis grad_length : forall p b u, length (grad p b u) = length p.
+Hypothesis sopt_proper : forall g g' s s' p p', g =v= g' -> os_eq s s' -> p =v= p' ->
+  os_eq (fst (sopt g s p)) (fst (sopt g' s' p')) /\ snd (sopt g s p) =v= snd (sopt g' s' p').
+
+(* FedProx with proximal weight 0 = FedAvg, round after round *)
+Theorem C12_fedprox_mu0_eq_fedavg : forall mu (cohorts : list (list client)) p p' os os',
+  mu == 0 -> Forall (fun cl => NoDup (map c_id cl)) cohorts -> p =v= p' -> os_eq os os' ->
+  exists q s dgs q' s' dgs',
+    fedprox_runs grad split copt_init copt_apply sopt mu (p, os) cohorts = Some (q, s, dgs) /\
+    fedavg_runs grad split copt_init copt_apply sopt (p', os') cohorts = Some (q', s', dgs') /\
+    q =v= q' /\ os_eq s s' /\ Forall2 (fun dg dg' => map fst dg = map fst dg') dgs dgs'.
+Proof.
+  exact (fedprox_mu0_runs_eq_fedavg grad split copt_init copt_apply sopt S_eq os_eq copt_init_proper copt_apply_proper
+           copt_apply_length grad_proper grad_length sopt_proper).
+Qed.
+
+(* HypCluster with a single cluster = FedAvg on the same clients with the key
+   jax.random.split(rng)[1], in every round that saw an example -- or in every round at all
+   when the server optimizer maps the zero gradient to an unchanged state (plain SGD) *)
+Theorem C12_hypcluster_one_cluster_eq_fedavg : forall (cohorts : list (list client)) p p' os os',
+  Forall (fun cl => NoDup (map c_id cl)) cohorts -> p =v= p' -> os_eq os os' ->
+  (Forall (fun cl => (0 < total_examples cl)%Z) cohorts \/
+   (forall g s q, g =v= vzero (length q) -> snd (sopt g s q) =v= q /\ os_eq (fst (sopt g s q)) s)) ->
+  (forall a, os_eq a a) -> (forall a b, os_eq a b -> os_eq b a) -> (forall a b c, os_eq a b -> os_eq b c -> os_eq a c) ->
+  exists q s q' s' dgs,
+    iter_rounds (hypcluster grad split split_pair copt_init copt_apply sopt (fun _ => O)) [(p, os)] cohorts = Some [(q, s)] /\
+    fedavg_runs grad split copt_init copt_apply sopt (p', os') (map (map (rekey split_pair)) cohorts) = Some (q', s', dgs) /\
+    q =v= q' /\ os_eq s s'.
+Proof.
+  exact (hypcluster_runs_eq_fedavg grad split split_pair copt_init copt_apply sopt S_eq os_eq copt_init_proper copt_apply_proper
+           copt_apply_length grad_proper grad_length sopt_proper).
+Qed.
+
+(* the base / client optimizer is plain SGD with learning rate eta *)
+Variable eta : Q.
+Hypothesis copt_is_sgd : forall g s p, length g = length p -> snd (copt_apply g s p) =v= vadd p (vscale (- eta) g).
+
+(* MimeLite(SGD eta, server learning rate 1) = FedAvg(SGD eta clients, SGD(1.0) server), round after round *)
+Theorem C12_mimelite_sgd_lr1_eq_fedavg : forall (cohorts : list (list mclient)) p p' s os,
+  (forall g o q, length g = length q -> snd (sopt g o q) =v= vsub q g) ->
+  Forall (fun cl => NoDup (map c_id (map fst cl))) cohorts -> p =v= p' ->
+  exists q s1 q' os1 dgs,
+    iter_rounds (mimelite grad split copt_apply 1) (p, s) cohorts = Some (q, s1) /\
+    fedavg_runs grad split copt_init copt_apply sopt (p', os) (map (map fst) cohorts) = Some (q', os1, dgs) /\ q =v= q'.
+Proof.
+  exact (mimelite_runs_eq_fedavg grad split copt_init copt_apply sopt S_eq copt_init_proper copt_apply_proper
+           copt_apply_length grad_proper grad_length eta copt_is_sgd).
+Qed.
+
+(* Mime(SGD eta), one local step per client with examples: every round is
+   p - (server_lr * eta) * c  with c = server_grads, ... *)
+Theorem C12_mime_sgd_one_step_is_fullbatch_step : forall slr (cohorts : list (list mclient)) p s,
+  Forall (fun cl => NoDup (map c_id (map fst cl)) /\ Forall one_step_client cl /\ (0 < total_examples (map fst cl))%Z) cohorts ->
+  exists q s1, iter_rounds (mime grad split copt_apply slr) (p, s) cohorts = Some (q, s1) /\
+               fullbatch_chain grad split eta slr p cohorts q.
+Proof. exact (mime_runs_fullbatch grad split copt_apply copt_apply_length grad_length eta copt_is_sgd). Qed.
+
+(* ... and c is the gradient over the whole cohort: the mean of the per-batch gradients
+   weighted by their numbers of real examples *)
+Theorem C12_mime_control_variate_is_cohort_gradient : forall p (clients : list mclient),
+  sg_q grad split p clients =v= wmean_batch (length p) (cohort_batch_grads grad split p clients).
+Proof. exact (sg_q_is_cohort_gradient grad split grad_length). Qed.
 End C12.
+
+(* ---- the instance evaluated by the correspondence check satisfies the hypotheses ---- *)
+Notation lsclient := (client (K := key) (B := list example)).
+Notation lsmclient := (mclient (K := key) (B := list example)).
+
+Theorem C12_ls_fedprox_mu0_eq_fedavg : forall co so mu (cohorts : list (list lsclient)) p os,
+  mu == 0 -> Forall (fun cl => NoDup (map c_id cl)) cohorts ->
+  exists q s dgs q' s' dgs',
+    fedprox_runs ls_grad split_key ls_copt_init (ls_copt_apply co) (ls_sopt so) mu (p, os) cohorts = Some (q, s, dgs) /\
+    fedavg_runs ls_grad split_key ls_copt_init (ls_copt_apply co) (ls_sopt so) (p, os) cohorts = Some (q', s', dgs') /\
+    q =v= q' /\ s =v= s' /\ Forall2 (fun dg dg' => map fst dg = map fst dg') dgs dgs'.
+Proof. exact ls_fedprox_mu0_runs. Qed.
+
+Theorem C12_ls_hypcluster_eq_fedavg : forall co so (cohorts : list (list lsclient)) p os,
+  Forall (fun cl => NoDup (map c_id cl)) cohorts -> Forall (fun cl => (0 < total_examples cl)%Z) cohorts ->
+  exists q s q' s' dgs,
+    iter_rounds (hypcluster ls_grad split_key ls_split_pair ls_copt_init (ls_copt_apply co) (ls_sopt so) (fun _ => O)) [(p, os)] cohorts
+      = Some [(q, s)] /\
+    fedavg_runs ls_grad split_key ls_copt_init (ls_copt_apply co) (ls_sopt so) (p, os) (map (map (rekey ls_split_pair)) cohorts)
+      = Some (q', s', dgs) /\ q =v= q' /\ s =v= s'.
+Proof. exact ls_hypcluster_runs. Qed.
+
+Theorem C12_ls_hypcluster_eq_fedavg_plain_sgd_server : forall co so (cohorts : list (list lsclient)) p os,
+  o_mom so == 0 -> Forall (fun cl => NoDup (map c_id cl)) cohorts ->
+  exists q s q' s' dgs,
+    iter_rounds (hypcluster ls_grad split_key ls_split_pair ls_copt_init (ls_copt_apply co) (ls_sopt so) (fun _ => O)) [(p, os)] cohorts
+      = Some [(q, s)] /\
+    fedavg_runs ls_grad split_key ls_copt_init (ls_copt_apply co) (ls_sopt so) (p, os) (map (map (rekey ls_split_pair)) cohorts)
+      = Some (q', s', dgs) /\ q =v= q'.
+Proof. exact ls_hypcluster_runs_plain. Qed.
+
+Theorem C12_ls_mimelite_sgd_lr1_eq_fedavg : forall co (cohorts : list (list lsmclient)) p s os,
+  o_mom co == 0 -> Forall (fun cl => NoDup (map c_id (map fst cl))) cohorts ->
+  exists q s1 q' os1 dgs,
+    iter_rounds (mimelite ls_grad split_key (ls_copt_apply co) 1) (p, s) cohorts = Some (q, s1) /\
+    fedavg_runs ls_grad split_key ls_copt_init (ls_copt_apply co) (ls_sopt (mkSgd 1 0 false)) (p, os) (map (map fst) cohorts)
+      = Some (q', os1, dgs) /\ q =v= q'.
+Proof. exact ls_mimelite_runs. Qed.
+
+Theorem C12_ls_mime_sgd_one_step_is_fullbatch_step : forall co slr (cohorts : list (list lsmclient)) p s,
+  o_mom co == 0 ->
+  Forall (fun cl => NoDup (map c_id (map fst cl)) /\ Forall one_step_client cl /\ (0 < total_examples (map fst cl))%Z) cohorts ->
+  exists q s1, iter_rounds (mime ls_grad split_key (ls_copt_apply co) slr) (p, s) cohorts = Some (q, s1) /\
+    fullbatch_chain ls_grad split_key (o_lr co) slr p cohorts q.
+Proof. exact ls_mime_runs. Qed.
+
+(* The guard of C12_hypcluster_one_cluster_eq_fedavg is needed: with a momentum server
+   optimizer and a second round that saw no example the two algorithms differ (known finding
+   hypcluster-empty-round-skips-server-optimizer) *)
+Theorem C12_hypcluster_eq_fedavg_unguarded_refuted :
+  exists co so cohorts p os q s q' s' dgs,
+    Forall (fun cl => NoDup (map c_id cl)) cohorts /\
+    iter_rounds (hypcluster ls_grad split_key ls_split_pair ls_copt_init (ls_copt_apply co) (ls_sopt so) (fun _ => O)) [(p, os)] cohorts
+      = Some [(q, s)] /\
+    fedavg_runs ls_grad split_key ls_copt_init (ls_copt_apply co) (ls_sopt so) (p, os) (map (map (rekey ls_split_pair)) cohorts)
+      = Some (q', s', dgs) /\ ~ q =v= q'.
+Proof. exact hypcluster_unguarded_refuted. Qed.
 
 Print Assumptions C12_fedprox_is_fedavg_on_prox_loss.
 Print Assumptions C12_apfl_global_eq_fedavg.
 Print Assumptions C12_apfl_global_eq_fedavg_multi_round.
+Print Assumptions C12_hypcluster_empty_round_keeps_state.
+Print Assumptions C12_fedprox_mu0_eq_fedavg.
+Print Assumptions C12_hypcluster_one_cluster_eq_fedavg.
+Print Assumptions C12_mimelite_sgd_lr1_eq_fedavg.
+Print Assumptions C12_mime_sgd_one_step_is_fullbatch_step.
+Print Assumptions C12_mime_control_variate_is_cohort_gradient.
+Print Assumptions C12_ls_fedprox_mu0_eq_fedavg.
+Print Assumptions C12_ls_hypcluster_eq_fedavg.
+Print Assumptions C12_ls_hypcluster_eq_fedavg_plain_sgd_server.
+Print Assumptions C12_ls_mimelite_sgd_lr1_eq_fedavg.
+Print Assumptions C12_ls_mime_sgd_one_step_is_fullbatch_step.
+Print Assumptions C12_hypcluster_eq_fedavg_unguarded_refuted.
